@@ -277,37 +277,54 @@ class PathEnum:
         env[key] = term
         self._overlay_parent(env, key, term)
 
+    def _set_component(self, cur, names, term):
+        """The literal `cur` with the component reached by the field names `names` replaced by `term`; None if the
+        path does not lead through literals."""
+        name = names[0]
+        if cur[0] == "tuple":
+            if not name.isdigit() or int(name) >= len(cur[1]):
+                return None
+            idx = int(name)
+            ops = list(cur[1])
+        elif cur[0] == "agg":
+            a = self.facts.adts.get(adt_base(cur[1]))
+            idx = None
+            if a is not None:
+                for v in a["variants"]:
+                    if v["name"] == cur[2] or a.get("kind") == "struct":
+                        for i, f in enumerate(v["fields"]):
+                            if f["name"] == name:
+                                idx = i
+                        break
+            if idx is None or idx >= len(cur[3]):
+                return None
+            ops = list(cur[3])
+        else:
+            return None
+        if len(names) > 1:
+            sub = self._set_component(ops[idx], names[1:], term)
+            if sub is None:
+                return None
+            ops[idx] = sub
+        else:
+            ops[idx] = term
+        return ("tuple", tuple(ops)) if cur[0] == "tuple" else ("agg", cur[1], cur[2], tuple(ops))
+
     def _overlay_parent(self, env, key, term):
-        """A write to one field of a local that holds a struct/tuple literal: keep the literal up to date, so
-        that a later read of the whole local sees the new component."""
+        """A write to one field of a local that holds a struct/tuple literal (possibly a field of a field: a grouping
+        sub-struct): keep the literal up to date, so that a later read of the whole local sees the new component."""
+        names = []
         while "." in key and not key.endswith(")"):
             parent, name = key.rsplit(".", 1)
+            names.insert(0, name)
             cur = env.get(parent)
-            if cur is None or cur[0] not in ("agg", "tuple"):
-                return
-            if cur[0] == "tuple":
-                if not name.isdigit() or int(name) >= len(cur[1]):
+            if cur is not None and cur[0] in ("agg", "tuple"):
+                new = self._set_component(cur, names, term)
+                if new is None:
                     return
-                ops = list(cur[1])
-                ops[int(name)] = term
-                new = ("tuple", tuple(ops))
-            else:
-                a = self.facts.adts.get(adt_base(cur[1]))
-                idx = None
-                if a is not None:
-                    for v in a["variants"]:
-                        if v["name"] == cur[2] or a.get("kind") == "struct":
-                            for i, f in enumerate(v["fields"]):
-                                if f["name"] == name:
-                                    idx = i
-                            break
-                if idx is None or idx >= len(cur[3]):
-                    return
-                ops = list(cur[3])
-                ops[idx] = term
-                new = ("agg", cur[1], cur[2], tuple(ops))
-            env[parent] = new
-            key, term = parent, new
+                env[parent] = new
+                term, names = new, []
+            key = parent
 
     def _walk(self, bb, env, conds, trace, events, onpath):
         fn = self.fn
@@ -403,6 +420,12 @@ class PathEnum:
                         ct = ("agg", "std::ops::ControlFlow", "Continue", args[0][3])
                     else:
                         ct = ("agg", "std::ops::ControlFlow", "Break", (args[0],))
+                elif path == "std::ops::Try::branch" and args and args[0][0] == "agg" and args[0][2] in ("Some", "None") and adt_base(args[0][1]) == "std::option::Option":
+                    # `?` on a literal Option (the value a helper or combinator traversed inline produced)
+                    if args[0][2] == "Some":
+                        ct = ("agg", "std::ops::ControlFlow", "Continue", args[0][3])
+                    else:
+                        ct = ("agg", "std::ops::ControlFlow", "Break", (("residual", args[0]),))
                 elif path == "std::ops::Try::branch" and args and _under_map_err(args[0])[0] == "call" and _under_map_err(args[0])[1] == "std::ops::FromResidual::from_residual":
                     # `?` applied to a value that is itself a propagated residual: always breaks
                     ct = ("agg", "std::ops::ControlFlow", "Break", (("residual", args[0]),))
@@ -592,6 +615,12 @@ class PathEnum:
                 events_b = events + [("cond", bb, None, d, ("eq", idx))]
             taken = True
             payload = recv[3][0] if recv[0] == "agg" and recv[3] else ("field", ("downcast", recv, vname), None, "0")
+            if recv[0] == "call" and vname in ("Ok", "Some") and recv[1] in (_R + "map", _O + "map") and len(recv[2]) == 2 and recv[2][1][0] == "fnconst" and "::" in recv[2][1][1]:
+                # `x.map(Enum::Variant)`: the Ok/Some payload is that variant around the payload of x
+                from .core import ENUM_VARIANTS
+                adt_, _, var_ = recv[2][1][1].rpartition("::")
+                if var_ in ENUM_VARIANTS.get(adt_, ()):
+                    payload = ("agg", adt_, var_, (("field", ("downcast", recv[2][0], vname), None, "0"),))
             how = spec["arms"][vname]
             events_b = events_b + [("lowered", bb, None, path, ("call", path, args, bb), t)]
             if how[0] == "value":
